@@ -4,7 +4,7 @@ import os
 import numpy as np
 
 
-def tan_header(crpix1, crpix2, scale=1e-3, crval=(50.0, 30.0), bottoms_up=False, key=""):
+def tan_header(crpix1, crpix2, scale=1e-3, crval=(50.0, 30.0), bottoms_up=False, key="", rot=None):
     from astropy.io import fits
 
     h = fits.Header()
@@ -18,10 +18,18 @@ def tan_header(crpix1, crpix2, scale=1e-3, crval=(50.0, 30.0), bottoms_up=False,
     h["CDELT2" + key] = scale if bottoms_up else -scale
     h["CUNIT1" + key] = "deg"
     h["CUNIT2" + key] = "deg"
+    if rot is not None:
+        # rotation of the pixel grid on the sky; multiples of 90 degrees give EXACT zeros and ones
+        import math
+
+        c, sn = {0: (1.0, 0.0), 90: (0.0, 1.0), 180: (-1.0, 0.0), 270: (0.0, -1.0)}.get(rot % 360, (math.cos(math.radians(rot)), math.sin(math.radians(rot))))
+        # the same sky for both row orders: reversing the rows (dy -> -dy, CDELT2 -> -CDELT2) flips the off-diagonal terms
+        f = -1.0 if bottoms_up else 1.0
+        h["PC1_1" + key], h["PC1_2" + key], h["PC2_1" + key], h["PC2_2" + key] = c, -sn * f + 0.0, sn * f + 0.0, c
     return h
 
 
-def write_piece(path, mosaic, rect, ref, scale=1e-3, crval=(50.0, 30.0), bottoms_up=False, nan_border=0, dtype=None):
+def write_piece(path, mosaic, rect, ref, scale=1e-3, crval=(50.0, 30.0), bottoms_up=False, nan_border=0, dtype=None, rot=None):
     """mosaic: 2-D array in display (top-down) orientation; rect=(x0,y0,w,h); ref=(cx,cy) 0-based mosaic pixel of CRVAL."""
     from astropy.io import fits
 
@@ -38,7 +46,7 @@ def write_piece(path, mosaic, rect, ref, scale=1e-3, crval=(50.0, 30.0), bottoms
     if bottoms_up:
         data = data[::-1]
         crpix2 = h + 1 - crpix2
-    hdr = tan_header(crpix1, crpix2, scale, crval, bottoms_up)
+    hdr = tan_header(crpix1, crpix2, scale, crval, bottoms_up, rot=rot)
     if dtype is not None:
         data = data.astype(dtype)
     fits.PrimaryHDU(np.ascontiguousarray(data), header=hdr).writeto(path, overwrite=True)
